@@ -31,61 +31,41 @@ impl Ipv6Address {
 
     /// Create an IPv6 address from a string that uses zero compression
     pub fn from_str(s: &str) -> Result<Self, &'static str> {
-        // Split the string by colons to get each segment
-        let segments: Vec<&str> = s.split(':').collect();
+        // At most one "::" stands for one or more groups of zeros, anywhere in the
+        // address including its start and its end (RFC 4291, section 2.2)
+        let (head, tail) = match s.find("::") {
+            Some(pos) => (&s[..pos], Some(&s[pos + 2..])),
+            None => (s, None),
+        };
 
-        // Ensure we have at most 8 segments for a valid IPv6 address
-        if segments.len() > 8 {
-            return Err("Invalid IPv6 address format");
+        // Groups of 16-bit hexadecimal numbers separated by single colons
+        fn groups(text: &str) -> Result<Vec<u16>, &'static str> {
+            if text.is_empty() {
+                return Ok(Vec::new());
+            }
+            text.split(':')
+                .map(|g| u16::from_str_radix(g, 16).map_err(|_| "Invalid segment in IPv6 address"))
+                .collect()
         }
 
+        let front = groups(head)?;
         let mut parts = [0u16; 8];
-        let mut part_index = 0; // Index to fill in the parts array
-
-        // Flags to handle zero compression
-        let mut compressed = false;
-        let mut compression_index = 0; // Index where compression starts
-
-        for (i, &segment) in segments.iter().enumerate() {
-            if segment.is_empty() {
-                if compressed {
+        match tail {
+            Some(tail) => {
+                let back = groups(tail)?;
+                // the compression replaces at least one group
+                if front.len() + back.len() > 7 {
                     return Err("Invalid IPv6 address format");
                 }
-                compressed = true;
-                compression_index = i;
-                continue;
+                parts[..front.len()].copy_from_slice(&front);
+                parts[8 - back.len()..].copy_from_slice(&back);
             }
-
-            if part_index >= 8 {
-                return Err("Invalid IPv6 address format");
+            None => {
+                if front.len() != 8 {
+                    return Err("Invalid IPv6 address format");
+                }
+                parts.copy_from_slice(&front);
             }
-
-            // Convert segment to u16 value
-            match u16::from_str_radix(segment, 16) {
-                Ok(value) => parts[part_index] = value,
-                Err(_) => return Err("Invalid segment in IPv6 address"),
-            }
-
-            part_index += 1;
-        }
-
-        // Handle zero compression
-        if compressed {
-            // Calculate the number of segments we need to shift
-            let shift = 8 - part_index;
-
-            // Shift parts to make room for the compressed segments
-            for i in (compression_index + shift..8).rev() {
-                parts[i] = parts[i - shift];
-            }
-
-            // Fill in the compressed segments with zeros
-            for part in parts.iter_mut().skip(compression_index).take(shift) {
-                *part = 0;
-            }
-        } else if part_index != 8 {
-            // If no compression, ensure we have exactly 8 parts
-            return Err("Invalid IPv6 address format");
         }
 
         Ok(Self(
